@@ -3,6 +3,7 @@ package query
 import (
 	"context"
 	"math"
+	"strings"
 	"sync"
 
 	"github.com/mithrandie/csvq/lib/parser"
@@ -45,10 +46,7 @@ func ParseJoinCondition(join parser.Join, view *View, joinView *View) (parser.Qu
 		return nil, nil, nil, nil
 	}
 
-	usingFields := make([]string, len(using))
-	for i, v := range using {
-		usingFields[i] = v.(parser.Identifier).Literal
-	}
+	usingFields := make(map[string]bool, len(using))
 
 	includeFields := make([]parser.FieldReference, len(using))
 	excludeFields := make([]parser.FieldReference, len(using))
@@ -58,6 +56,12 @@ func ParseJoinCondition(join parser.Join, view *View, joinView *View) (parser.Qu
 		var lhs parser.FieldReference
 		var rhs parser.FieldReference
 		fieldref := parser.FieldReference{BaseExpr: v.GetBaseExpr(), Column: v.(parser.Identifier)}
+
+		lit := strings.ToUpper(v.(parser.Identifier).Literal)
+		if _, ok := usingFields[lit]; ok {
+			return nil, nil, nil, NewDuplicateFieldNameError(v.(parser.Identifier))
+		}
+		usingFields[lit] = true
 
 		lhsidx, err := view.FieldIndex(fieldref)
 		if err != nil {
